@@ -181,6 +181,93 @@ def gen_case(rng, world, enzymes, stream):
                                            splice=False, orf=None, emitted_form=True, bad=True))
     return c
 
+OPT_KEYS = ['exprs', 'table', 'cutoff', 'kan', 'kac', 'keep_canonical', 'denylist', 'miscleavages', 'enzyme']
+
+def gen_passes_case(rng, world, enzymes, mode):
+    """one pool, 2-3 successive filtering passes with DIFFERENT criteria (first passes tend to be strict, later
+    ones lenient, so that an entry removed earlier would satisfy a later pass)"""
+    base = gen_case(rng, world, enzymes, 'main')
+    passes = []
+    for k in range(rng.choice([2, 2, 3])):
+        o = gen_case(rng, world, enzymes, 'main')
+        opts = {key: o.get(key) for key in OPT_KEYS}
+        opts['enzyme'] = base['enzyme'] if rng.random() < 0.7 else o['enzyme']
+        if rng.random() < 0.45:
+            opts['denylist'] = [p['seq'] for p in base['peps'] if rng.random() < 0.4]
+        else:
+            opts['denylist'] = None
+        if k == 0 and opts.get('exprs') is not None and rng.random() < 0.5:
+            opts['cutoff'] = float(rng.choice(['3', '5', '10', '50']))          # strict first
+        if k > 0 and rng.random() < 0.5:
+            if opts.get('exprs') is not None:
+                opts['cutoff'] = 0.0                                             # lenient later
+            opts['miscleavages'] = None
+            opts['denylist'] = None
+        if mode == 'api' and opts.get('exprs') is not None and opts.get('cutoff') is None:
+            opts['cutoff'] = 1.0
+        passes.append(opts)
+    return dict(kind='passes', stream='passes_' + mode, mode=mode, world=world, peps=base['peps'], passes=passes, ref='index',
+                enzyme=base['enzyme'])
+
+def eval_passes(ctx, cases, add, stats):
+    """each pass is judged against the MODEL applied to the previous pass's MODEL output, and against the
+    statement evaluated from the ground truth of the entries that survived so far; independently: the output of
+    pass k must be a sub-collection of the output of pass k-1"""
+    if not cases:
+        return
+    impl = I.run_cases('c19', [dict(c, fasta=[[' '.join(e['text'] for e in p['entries']), p['seq']] for p in c['peps']])
+                               for c in cases], jobs=ctx.jobs, tag='c19p')
+    cur = [c['peps'] for c in cases]                 # model-side pool before the next pass
+    alive = [True] * len(cases)
+    prev_impl = [None] * len(cases)
+    site_keys = sorted(set((o.get('enzyme', 'trypsin'), p['seq']) for c in cases for o in c['passes'] for p in c['peps']))
+    site_res = O.call_parallel([('sites', [e, 'trypsin_exception' if e == 'trypsin' else None, s]) for e, s in site_keys], jobs=8)
+    sites_cache = dict(zip(site_keys, site_res))
+    for k in range(3):
+        idx = [i for i, c in enumerate(cases) if alive[i] and k < len(c['passes'])]
+        if not idx:
+            break
+        cks = []
+        for i in idx:
+            ck = dict(cases[i]); ck.update(cases[i]['passes'][k]); ck['peps'] = cur[i]; ck['kind'] = 'filter'
+            cks.append(ck)
+        model = O.call_parallel([oracle_req(ck) for ck in cks], jobs=8)
+        for i, ck, m in zip(idx, cks, model):
+            c, r = cases[i], impl[i]
+            stats['passes'] = stats.get('passes', 0) + 1
+            if isinstance(r, dict) and '__exc__' in r:
+                add(c, None, 'C19 passes: implementation raised %s' % r['__exc__'], r); alive[i] = False; continue
+            if k >= len(r['passes']):
+                alive[i] = False; continue
+            rk = r['passes'][k]
+            a = {'error': [rk['__exc__']]} if isinstance(rk, dict) else {'out': canon_impl_out(rk)}
+            b = canon_model(ck, m)
+            if not agree(a, b):
+                expect = declarative(ck, sites_cache)
+                probs = classify(ck, a['out'], expect) if ('out' in a and expect is not None) else []
+                add(c, None, 'C19 pass %d of %d (%s, different criteria on one pool): implementation %s vs model applied to the previous pass %s%s' % (
+                    k + 1, len(c['passes']), c['mode'], json.dumps(a)[:150], json.dumps(b)[:150],
+                    ('; statement: ' + probs[0][1]) if probs else ''), {'pass': k, 'impl': a, 'model': b})
+                alive[i] = False
+                continue
+            if 'out' in a and prev_impl[i] is not None and not sub_collection(a['out'], prev_impl[i]):
+                add(c, None, 'C19 pass %d: output is not a sub-collection of the previous pass output' % (k + 1), {'impl': a})
+            if 'error' in a:
+                alive[i] = False; continue
+            prev_impl[i] = a['out']
+            if k > 0 and sum(len(v) for v in a['out'].values()) > 0:
+                stats['passes_nontrivial'] = stats.get('passes_nontrivial', 0) + 1
+            by_text = {}
+            for p in cases[i]['peps']:
+                for e in p['entries']:
+                    by_text.setdefault((p['seq'], e['text']), e)
+            cur[i] = [dict(seq=s, entries=[by_text[(s, t)] for t in ents if (s, t) in by_text]) for s, ents in b['out'].items()]
+        # the FASTA finally written (api mode) carries the filtered headers
+    for c, r in zip(cases, impl):
+        if isinstance(r, dict) and 'written' in r and r['passes'] and not isinstance(r['passes'][-1], dict):
+            if canon_impl_out(r['written']) != canon_impl_out(r['passes'][-1]):
+                add(c, None, 'C19 passes: the FASTA written after the last pass differs from the pool', r)
+
 def with_fasta(c):
     c = dict(c)
     c['fasta'] = [[' '.join(e['text'] for e in p['entries']), p['seq']] for p in c['peps']]
@@ -393,6 +480,9 @@ def build_cases(ctx):
             c['ref'] = 'gtf'
         c['twice'] = st in ('orf_first', 'dup')
         cases.append(c)
+    # successive passes with different criteria on one pool (API) / on the FASTA of the previous run (CLI)
+    for i in range(240 if ctx.quick else 3000):
+        cases.append(gen_passes_case(rng, rng.choice(worlds), enzymes, 'api' if i % 3 else 'cli'))
     return cases
 
 def load_corpus():
@@ -410,6 +500,8 @@ def load_corpus():
 
 def evaluate(ctx, cases):
     """returns (violations, stats)"""
+    pcases = [c for c in cases if c.get('kind') == 'passes']
+    cases = [c for c in cases if c.get('kind') != 'passes']
     impl = I.run_cases('c19', [with_fasta(c) for c in cases], jobs=ctx.jobs, tag='c19')
     # model, with the true coding set; for the gtf stream additionally with the empty set
     reqs = [oracle_req(c) for c in cases]
@@ -426,6 +518,9 @@ def evaluate(ctx, cases):
             v['finding'] = fid
             stats['findings'][fid] = stats['findings'].get(fid, 0) + 1
         viol.append(v)
+    for c in pcases:
+        stats['dist'][c['stream']] = stats['dist'].get(c['stream'], 0) + 1
+    eval_passes(ctx, pcases, add, stats)
     outs = []
     for c, r, m in zip(cases, impl, model):
         stats['dist'][c['stream']] = stats['dist'].get(c['stream'], 0) + 1
@@ -525,7 +620,7 @@ def run(ctx):
                      'non-trivial = the implementation dropped at least one entry and kept at least one; distinct by full input',
                 samples=samples, distribution=st['dist'], entries_by_kind=st['entries_kind'],
                 kept_entries=st['kept_entries'], dropped_entries=st['dropped_entries'], error_cases=st['errors'],
-                disagreements=st['disagreements'], findings_hit=st['findings'], idempotence_pairs=st['idem'],
+                disagreements=st['disagreements'], findings_hit=st['findings'], idempotence_pairs=st['idem'], successive_passes_judged=st.get('passes', 0), later_passes_nonempty=st.get('passes_nontrivial', 0),
                 monotonicity_pairs=st['pairs'], violations=out_v,
                 assumptions=['expression values and cutoffs have at most 3 decimals (compared exactly as integers x1000; doubles order identically)',
                              'transcript ids contain no "-", " " or "|"; header fields are ASCII; int() is modelled on [+-]?digits',
